@@ -100,7 +100,7 @@ def model(spec, pairs):
 def check(case, ctx):
     keys, spec = case["keys"], case["mw"]
     out = []
-    pairs = [(k, "{v%d}" % i) for i, k in enumerate(keys)]
+    pairs = [(k, "{Val %d of %s}" % (i, k.upper())) for i, k in enumerate(keys)]
     nontriv = len({k.lower() for k in keys}) < len(keys)
     for inplace in (False, True):
         if spec[0] == "custom":
